@@ -483,6 +483,6 @@ def run(tier, seed):
 MANIFEST = {
     "engine": "H",
     "technique": "explicit-state BFS over add/renew/allocate/write/cancel/clock-step histories on real immutable and mutable containers (schema v1 and v2) behind a real StorageServer, reference lease list stepped alongside",
-    "text": "For each container kind every history up to the stated length of lease additions, renewals, re-allocations, data writes (in place, growing, truncating), cancellations (state generator) and clock steps (+1 s, +31 d, clock set back 1 d) with 3 secrets is executed; after every step the lease records (raw bytes and get_leases()) must equal the reference: known secret renews to max(old, now+31d) without a duplicate, unknown secret on renew raises and leaves the directory byte-identical, data writes keep every record, and v2 container files never contain a secret as a substring.",
+    "text": "For each container kind every history up to the stated length of lease additions, renewals, re-allocations, data writes (in place, growing, truncating), cancellations (state generator) and clock steps (+1 s, +31 d, clock set back 1 d) with 3 secrets is executed; after every step the lease records (raw bytes and get_leases()) must equal the reference: known secret renews to max(old, now+31d) without a duplicate, unknown secret on renew raises and leaves the directory byte-identical, data writes keep every record, and v2 container files never contain a secret as a substring. Immutable data writes (in range and ending past the allocated size) must leave the uploader's lease intact.",
     "note": "Depth-bounded (history length in the evidence). States are restored from bytes + clock inside a worker; every frontier state is re-derived by replay and compared. cancel_lease carries no requirement. Assumes the lease code keeps no in-memory state (inspected).",
 }
